@@ -110,7 +110,7 @@ func (c02Engine) Gen(seed uint64, idx int, tier string) interface{} {
 			sc.Raw = r.Pick([]string{"A in [1, 2, 3]", "B in 1..3", "A not in [0, 1]", "A == 1", "B in [1, 2]", "K in [1, 2]", "A in 0..9"})
 			sc.Source = sc.Raw
 		}
-		sc.Marks = append(sc.Marks, "Ff", "CL")
+		sc.Marks = append(sc.Marks, "Ff", "CL", "CP", "CN")
 		return sc
 	}
 	cfg := GenCfg{Budget: r.Range(4, 36), Calls: true, Dyn: r.Chance(1, 2), Failing: r.Chance(2, 3), Strings: true,
@@ -185,7 +185,7 @@ func genTypedProbe(r *RNG, d *EnvData) string {
 		return fmt.Sprint(i)
 	}
 	in := r.Pick([]string{"in", "not in"})
-	switch r.Intn(18) {
+	switch r.Intn(19) {
 	case 0: // membership in a literal range, boundaries at the operand's value
 		a := near()
 		b := a + r.Range(-1, 3)
@@ -237,6 +237,13 @@ func genTypedProbe(r *RNG, d *EnvData) string {
 			"{\"a\": 1, \"a\": 2}.a", "{\"a\": 1, \"b\": 5, \"a\": 1 + 1}", "{\"k\": A, \"k\": B}.k", "len({\"a\": 1, \"a\": 2})",
 			"len(-5000000000000000000..5000000000000000000)", "A in -5000000000000000000..5000000000000000000", "len(1..9223372036854775807)",
 		})
+	case 17: // re-associated float sums, float literals divided by an integer zero, nil to a nilable parameter, several pure calls with equal arguments
+		return r.Pick([]string{
+			"(F64 * 0 + 10000000000000000.0) + 1 + 1", "(F64 * 0 + 1e16) + 1 + 1 + 1", "Any + 1 + 1", "F64 + 1 + 1", "S + \"a\" + \"b\"",
+			"1.5 / 0", "(0.5 + 0.5) / 0", "P ? 1 : 1.5 / 0", "-2.5 / 0 > 0", "F64 / 0",
+			"CP(nil)", "CP(On)", "CP(O)", "[CP(nil), 1]",
+			"[CI(2), CL(2), Ff(2)]", "[CL(3), CI(3)]", "[CN(1), CL(1)]", "CN(2) == nil", "[CS(\"Ab\"), CI(1), CS(\"Ab\")]",
+		})
 	case 10: // a ConstExpr function returning a named integer type through interface{}
 		return fmt.Sprintf("CL(%d) %s", r.Range(0, 3), r.Pick([]string{"== 1", "== 0", "in 0..2", "in [0, 1]", "not in 1..3", "!= 2"}))
 	default: // ConstExpr float function with folded arguments under a comparison
@@ -259,7 +266,24 @@ func hasHugeLiteralRange(src string) bool {
 	return false
 }
 
-var literalDivZeroRe = regexp.MustCompile(`[/%]\s*\(?-?0\b`)
+// an INTEGER literal divided by (or taken modulo) a literal zero: the dividend must
+// not be the fraction of a float literal, the divisor not the start of one
+var literalDivZeroRe = regexp.MustCompile(`(^|[^.\d])\d+\)?\s*[/%]\s*\(?-?0($|[^.\dxX])`)
+
+// sameFailure: two error texts describe the same failure once the position, the
+// snippet and the "compile error:" / "runtime error:" prefix are set aside.
+func sameFailure(a, b string) bool {
+	norm := func(s string) string {
+		s = firstLine(s)
+		if i := strings.LastIndex(s, " ("); i > 0 && strings.HasSuffix(s, ")") {
+			s = s[:i]
+		}
+		s = strings.Replace(s, "compile error:", "", 1)
+		s = strings.Replace(s, "runtime error:", "", 1)
+		return strings.TrimSpace(s)
+	}
+	return norm(a) != "" && norm(a) == norm(b)
+}
 
 // hasConstDivZero: the source contains an integer division or modulo whose
 // operands are constant and whose divisor is zero.
@@ -377,6 +401,20 @@ func (c02Engine) Run(sci interface{}, ctx *RunCtx) *Finding {
 		case divZero:
 			justified = "constant division by zero"
 			ctx.Count("rejections_justified_by_div_zero", 1)
+		}
+		if justified == "" && off.prog != nil {
+			// The same failure at run time? A call that cannot even be made (an
+			// argument the function does not take) fails identically when the
+			// unoptimised program makes it: the mark only moved it to compile time.
+			w := NewWorld(sc.Stateful, nil, sc.Poison)
+			envv := BuildEnv(w, sc.Env).AsRep(sc.Rep)
+			beginRun(-1, 0)
+			o := sutRun(nil, off.prog, envv)
+			ctx.Eval()
+			if o.Err != nil && sameFailure(on.co.ErrText(), o.Err.Error()) {
+				justified = "the same failure at run time"
+				ctx.Count("rejections_justified_by_same_runtime_failure", 1)
+			}
 		}
 		if justified == "" {
 			kind := "optimizer-rejects-accepted-program"
